@@ -267,6 +267,11 @@ class ExprMixin:
                     kids = self.coerce(v.items[view[1]], ELEMLIST).t
                     return VElem(E.EElem(tag, z3.BoolVal(False), z3.StringVal(''), kids))
                 raise OutOfReach(f'dict with keys {sorted(map(str, v.items))} is not a document node of the declared view')
+        if kind[0] == 'set' and isinstance(v, VSet):
+            if v.t is None:
+                return VSet(z3.EmptySet(self.ctx.sorts.sort_of(kind[1])), kind[1])
+            if v.elem_kind == kind[1]:
+                return v
         if kind[0] == 'stack' and isinstance(v, (VList, VTuple)):
             S_ = self.ctx.sorts.stack_sort(kind[1])
             t = S_.SNil
@@ -338,6 +343,11 @@ class ExprMixin:
                 nn = lambda v: getattr(v, 'elems_nonnull', False) or (isinstance(v, VList) and not v.items)
                 res.elems_nonnull = nn(a) and nn(b)
                 return res
+            elif ka[0] == 'set' and kb[0] == 'set':
+                ek = a.elem_kind or b.elem_kind
+                if ek is None:
+                    return a
+                a, b = self.coerce(a, ('set', ek)), self.coerce(b, ('set', ek))
             elif 'elem' in (ka[0], kb[0]) and {ka[0], kb[0]} <= {'elem', 'dict', 'str'}:
                 a, b = self.coerce(a, ELEM), self.coerce(b, ELEM)
             elif 'elemlist' in (ka[0], kb[0]) and {ka[0], kb[0]} <= {'elemlist', 'list', 'tuple'}:
@@ -425,6 +435,12 @@ class ExprMixin:
             # a constant of a library (e.g. antlr4.Token.EOF) compared with an opaque library value: the constant is some value
             lib, other = (a, b) if isinstance(a, VLib) else (b, a)
             return other.t == z3.Const(f'libconst_{lib.dotted}.{lib.name}', S.PyVal)
+        if isinstance(a, VSet) and isinstance(b, VSet):
+            ek = a.elem_kind or b.elem_kind
+            if ek is None:
+                return z3.BoolVal(True)
+            a2, b2 = self.coerce(a, ('set', ek)), self.coerce(b, ('set', ek))
+            return a2.t == b2.t
         if isinstance(a, VElem) or isinstance(b, VElem):
             a2, b2 = self.coerce(a, ELEM), self.coerce(b, ELEM)
             if not (isinstance(a2, VElem) and isinstance(b2, VElem)):
@@ -969,6 +985,12 @@ class ExprMixin:
             if tb is None:
                 return VSeq(ta, ea)
             return VSeq(z3.Concat(ta, tb), ea)
+        if isinstance(a, VSet) and isinstance(b, VSet) and isinstance(op, ast.BitOr):
+            ek = a.elem_kind or b.elem_kind
+            if ek is None:
+                return a
+            a2, b2 = self.coerce(a, ('set', ek)), self.coerce(b, ('set', ek))
+            return VSet(z3.SetUnion(a2.t, b2.t), ek)
         if isinstance(a, VSet) and isinstance(b, VSet) and isinstance(op, ast.Sub):
             return VSet(z3.SetDifference(a.t, b.t), a.elem_kind)
         raise OutOfReach(f'binary {type(op).__name__} on {a.kind},{b.kind} (line {ln})')
